@@ -331,7 +331,7 @@ func (c *Ctx) scratchReset() {
 		}
 	}
 	c.R.Count("appends into the consumer scratch buffer", n)
-	c.R.Floor("appends into the consumer scratch buffer (ReadPeek x2, ReadWait x2)", n, 4)
+	c.R.Floor("appends into the consumer scratch buffer (ReadPeek x2, ReadWait x2; a copy-based assembly has none - its lengths are decided by B11)", n, 0)
 }
 
 const ruleB10 = "B10-ring-memory-safety"
